@@ -269,6 +269,25 @@ func patternTrial(p string) (step, class, obs, exp string, outcome string) {
 			}
 		}
 	}
+	// the same text as a domain of a Hosts matcher (its Add is Handle for the matcher's private table): registered or
+	// refused with an error value, and whatever was registered can be matched against and deleted
+	hs := mux.NewHosts(false, "a.com")
+	if v, bad := Guard(func() { hs.Add(p) }); bad {
+		if pc := PanicClass(v); pc != "error" {
+			return "Hosts.Add", "hosts-add-panic-not-error:" + pc, fmt.Sprintf("panic(%T): %v", v, v), "registered, or panic with an error value", outcome
+		}
+	}
+	for _, host := range []string{p, "a.com", "a", "ab", "1"} {
+		hctx := types.NewContext()
+		v, bad := Guard(func() { hs.Match(hv.NewRequest(hv.Req{Method: "GET", Path: "/", Host: host}, &hv.Obs{}), hctx) })
+		hctx.Destroy()
+		if bad {
+			return "Hosts.Match(after Add) " + fmt.Sprintf("%q", host), "hosts-match-panic", fmt.Sprintf("panic: %v", v), "no panic", outcome
+		}
+	}
+	if v, bad := Guard(func() { hs.Delete(p) }); bad {
+		return "Hosts.Delete(after Add)", "hosts-delete-panic", fmt.Sprintf("panic: %v", v), "no panic", outcome
+	}
 	for _, path := range []string{p, "/a/1", "/ab", "/a/"} {
 		if o := hv.Serve(r2, hv.Req{Method: "GET", Path: path}); o.Paniced {
 			return "Serve(populated) " + fmt.Sprintf("%q", path), "serve-panic-after-handle", fmt.Sprintf("panic: %v", o.Panic), "no panic", outcome
